@@ -12,7 +12,7 @@ for f in sorted(glob.glob(os.path.join(V,'checks','C*.json'))):
         extra=[]
         if e.get('redirects'): extra.append('redirects: '+', '.join('%s→%s'%(k.split('.')[-1].split(')')[-1] or k,v) for k,v in e['redirects'].items()))
         if e.get('allow_cuts'): extra.append('cut (unwind %s): %s'%(e.get('unwind','?'),e.get('cut_reason','')))
-        if e.get('fork_map_order'): extra.append('every map iteration order forked')
+        pass
         if e.get('race'): extra.append('replay under -race')
         out.append('| %s | %s | %s | %s | %s | %s |'%(e['entry'],e.get('tier','quick'),e.get('mode','R'),e.get('desc','').replace('|','/'),e.get('bounds','').replace('|','/'),'; '.join(extra).replace('|','/') or '—'))
 out.append('<!-- checks-table-end -->')
